@@ -144,7 +144,17 @@ func (s *serverEnc) Encode(it Item, i int) []byte {
 		s.block(&b, true, s.resultCols(i, 1), 1)
 	case "prog":
 		proto.ServerCodeProgress.Encode(&b)
-		proto.Progress{Rows: uint64(i), Bytes: uint64(100 + i), TotalRows: 7}.EncodeAware(&b, s.rev)
+		// N selects the shape of the packet: every Progress packet is a packet, whatever its counters say
+		pr := proto.Progress{Rows: uint64(i), Bytes: uint64(100 + i), TotalRows: 7}
+		switch it.N {
+		case 1: // an insert's progress: only the write-side counters
+			pr = proto.Progress{WroteRows: uint64(i), WroteBytes: 5}
+		case 2: // only the elapsed time
+			pr = proto.Progress{ElapsedNs: uint64(i)}
+		case 3: // a heartbeat: everything zero
+			pr = proto.Progress{}
+		}
+		pr.EncodeAware(&b, s.rev)
 	case "profile":
 		proto.Profile{Rows: uint64(i), Blocks: 1, Bytes: 10}.EncodeAware(&b, s.rev) // writes its own code
 	case "tcols":
